@@ -8,28 +8,36 @@ Section C18.
   Variable R : Type.
   Variable pick : R -> value L.
 
-  (* for every history: the wrapped learner inside the DataSaver is in exactly
-     the state of the same learner fed the picked values directly, and every
-     answer (asked points, loss improvements, losses) is the same *)
+  (* for every history (asks, tells, batches of tells, tell_pending, loss,
+     discards): the wrapped learner inside the DataSaver is in exactly the
+     state of the same learner fed the picked values directly ([pick_ops]: a
+     tell_many is the sequence of its tells), and every answer (asked points,
+     loss improvements, losses) is the one the bare learner gives *)
   Theorem C18_bisimulation : forall (h : list (op L R)) (s : dst L R),
-    child (run pick s h) = lrun (child s) (map (pick_op pick) h) /\
-    trace pick s h = ltrace (child s) (map (pick_op pick) h).
+    child (run pick s h) = lrun (child s) (flat_map (pick_ops pick) h) /\
+    trace pick s h = ctrace pick (child s) h.
   Proof. exact (@bisimulation L R pick). Qed.
 
   (* hence every attribute reached through __getattr__ (data,
      pending_points, npoints, ...) is that of the unwrapped twin *)
   Theorem C18_bisimulation_obs : forall A (attr : state L -> A) (h : list (op L R)) (s : dst L R),
-    getattr attr (run pick s h) = attr (lrun (child s) (map (pick_op pick) h)).
+    getattr attr (run pick s h) = attr (lrun (child s) (flat_map (pick_ops pick) h)).
   Proof. exact (@bisimulation_obs L R pick). Qed.
+
+  (* tell_many(xs, results) is exactly the sequence tell(x, result) *)
+  Theorem C18_tell_many_is_tells : forall (xrs : list (point L * R)) (s : dst L R),
+    tell_many pick s xrs = run pick s (map (fun xr => Tell (fst xr) (snd xr)) xrs).
+  Proof. exact (@tell_many_is_tells L R pick). Qed.
 
   Hypothesis point_laws : PointLaws L.     (* == on points is an equivalence *)
 
   (* extra_data: keys = the told points (no key twice), value = the last
-     full result told for that point; nothing else touches it *)
+     full result told for that point, singly or in a batch ([tolds h]);
+     nothing else (ask, tell_pending, loss, remove_unfinished) touches it *)
   Theorem C18_extra_data : forall (h : list (op L R)) (k : state L),
     (forall x, alookup L x (extra (run pick (DataSaver.init L R k) h)) = last_told x h) /\
     (forall x, (exists r, alookup L x (extra (run pick (DataSaver.init L R k) h)) = Some r) <->
-               (exists x' r, In (Tell x' r) h /\ peqb L x' x = true)) /\
+               (exists x' r, In (x', r) (tolds h) /\ peqb L x' x = true)) /\
     distinct_keys L (extra (run pick (DataSaver.init L R k) h)).
   Proof.
     exact (fun h k => conj (fun x => @extra_data_value L R pick point_laws h k x)
@@ -49,8 +57,8 @@ End C18.
    (value, tag) pairs; point 3 is told twice, the second result wins *)
 Example C18_example :
   let h : list (op Toy.learner (nat * nat)) :=
-    [Ask 2 true; @Tell Toy.learner _ 0 (5, 100); @Tell Toy.learner _ 3 (6, 101); Loss true; @Tell Toy.learner _ 3 (7, 102);
-     RemoveUnfinished; Ask 1 false] in
+    [Ask 2 true; @Tell Toy.learner _ 0 (5, 100); @TellMany Toy.learner _ [(3, (6, 101)); (3, (7, 102))]; Loss true;
+     @TellPending Toy.learner _ 0; RemoveUnfinished; Ask 1 false] in
   let s := run fst (DataSaver.init Toy.learner (nat * nat) Toy.init) h in
   extra s = [(0, (5, 100)); (3, (7, 102))] /\
   Toy.known (child s) = [(0, 5); (3, 7)] /\
@@ -60,5 +68,6 @@ Proof. vm_compute. repeat split. Qed.
 
 Print Assumptions C18_bisimulation.
 Print Assumptions C18_bisimulation_obs.
+Print Assumptions C18_tell_many_is_tells.
 Print Assumptions C18_extra_data.
 Print Assumptions C18_roundtrip.
